@@ -67,6 +67,9 @@ CellWhys(c) ==
       THEN "P:C07:count-is-not-the-number-of-satisfying-strings" ELSE "ok",
     IF okE /\ prem /\ r.len >= 1 /\ A >= 1 /\ ~EntropyIsLog2(c.ent, cnt, Tol)
       THEN "P:C07:entropy-is-not-log2-of-the-exact-count" ELSE "ok",
+    \* the likeliest password has probability >= 1/(number of strings the recipe allows): Entropy() above log2 of that number overstates
+    IF okE /\ prem /\ r.len >= 1 /\ A >= 1 /\ cnt # <<>> /\ ~EntropyNotAbove(c.ent, cnt, Tol)
+      THEN "P:C06:Entropy()-exceeds-log2-of-the-number-of-strings-the-recipe-allows" ELSE "ok",
     IF okE /\ r.len >= 1 /\ A = 0 /\ c.ent.k # "ninf"
       THEN "P:C07:entropy-of-unsatisfiable-recipe-not-minus-infinity" ELSE "ok",
     IF c.prevChg > 0 THEN "P:C03:a-password-returned-earlier-changed-when-a-later-one-was-generated" ELSE "ok",
